@@ -4,6 +4,8 @@ C06.a every symbol is declared: who may construct symbols; every term-creator us
       pre-created in FullEncoding.functions_declared, under a condition on the same option
 C06.b handler exhaustiveness and signature agreement of the per-instruction stack constraints
 C06.c the model reader reads t_j for exactly the positions restrict_t_domain constrains
+C06.d happens-before map under-approximates the dependency graph
+C06.e position families cover every admissible position
 """
 import ast
 
@@ -13,11 +15,14 @@ from ..core.report import where
 
 TECHNIQUE = ("who-may-construct rule for SMT symbols; creator-use vs declaration agreement over the encoding modules; "
              "exhaustiveness of the instruction-class dispatch; keyword/signature agreement of registered encoders")
-LEVEL_TEXT = ("Decides the second sentence of C06 structurally: symbols can only come from the term factory, every kind of "
-              "term a constraint generator asks for is pre-created (hence declared) under the same option, every "
-              "instruction class the factory can produce has an encoder registered with exactly the keyword arguments "
-              "that encoder (and its `empty` twin) declares, and the model reader and the domain constraint range over "
-              "the same positions. Soundness of the constraint system over all models is not decided.")
+LEVEL_TEXT = ("Decides the second sentence of C06 structurally: symbols can only come from the term factory, every kind of term a "
+              "constraint generator asks for is pre-created (hence declared) under the same option, every instruction class the factory "
+              "can produce has an encoder registered with exactly the keyword arguments that encoder (and its `empty` twin) declares, and "
+              "the model reader and the domain constraint range over the same positions. Of the first sentence it decides three necessary "
+              "structural conditions: the happens-before map used to leave order tuples out of the dependency graph under-approximates "
+              "reachability (inductive invariant per update site); every position family of the hard constraints reaches the inclusive "
+              "upper bound; existential order constraints start at the later instruction's lower bound and exclude the position when no "
+              "earlier position exists. Soundness of the constraint system over all models is not decided.")
 EXPLANATION = ("Declarations are a snapshot taken by BlockOptimizer before the lazy constraint generators run, so a creator "
                "that is used but not pre-created in functions_declared yields an undeclared symbol in the SMT-LIB text.")
 NOT_DECIDED = ("that every model decodes to a realizing sequence (a semantic statement about generated formulas); index "
@@ -284,6 +289,7 @@ def rule_d(ctx, out):
     fs = ctx.p.funcs_in(DEPS)
     n_upd = 0
     for f in fs:
+        sites = []
         for c in calls_in(f.node):
             if not (isinstance(c.func, ast.Attribute) and c.func.attr in ("update", "add") and _sub2(c.func.value) and len(c.args) == 1):
                 continue
@@ -295,6 +301,25 @@ def rule_d(ctx, out):
                 b = src[1]
             else:
                 b = norm(c.args[0])
+            sites.append((c, H, a, b))
+        for st in own_nodes(f.node):
+            # H[a] |= H[b]   /   H[a] = H[a] | H[b]   /   H[a] = H[a].union(H[b])
+            if isinstance(st, ast.AugAssign) and isinstance(st.op, ast.BitOr) and _sub2(st.target) and _sub2(st.value) and _sub2(st.target)[0] == _sub2(st.value)[0]:
+                sites.append((st, _sub2(st.target)[0], _sub2(st.target)[1], _sub2(st.value)[1]))
+            elif isinstance(st, ast.Assign) and len(st.targets) == 1 and _sub2(st.targets[0]):
+                H, a = _sub2(st.targets[0])
+                v = st.value
+                parts = []
+                if isinstance(v, ast.BinOp) and isinstance(v.op, ast.BitOr):
+                    parts = [v.left, v.right]
+                elif isinstance(v, ast.Call) and isinstance(v.func, ast.Attribute) and v.func.attr == "union" and len(v.args) == 1:
+                    parts = [v.func.value, v.args[0]]
+                subs = [_sub2(x) for x in parts]
+                if len(subs) == 2 and all(subs) and all(x[0] == H for x in subs):
+                    for x in subs:
+                        if x[1] != a:
+                            sites.append((st, H, a, x[1]))
+        for c, H, a, b in sites:
             n_upd += 1
             if a == b:
                 out.ok({"function": f.name, "update": short(c, 60), "justified": "reflexive"})
